@@ -146,12 +146,7 @@ func c01(c *core.Ctx) {
 	fl := ssax.NewFlow()
 
 	// ---- R2 pipeline
-	rIn, sIn := chanUsers(c, "server", "server.client.in")
-	rOut, sOut := chanUsers(c, "server", "server.client.out")
-	checkUsers(c, "C01.R2", "receivers-of client.in", rIn, "connectWithTimeOut", "readHandle")
-	checkUsers(c, "C01.R2", "senders-to client.in", sIn, "readLoop")
-	checkUsers(c, "C01.R2", "receivers-of client.out", rOut, "writeLoop")
-	checkUsers(c, "C01.R2", "senders-to client.out", sOut, "write", "sendErrConnack", "connectWithTimeOut")
+	pipelineInventory(c, "C01.R2")
 	for _, n := range []string{"readHandle", "pollMessageHandler"} {
 		f := p.Func("server", "(*client)."+n)
 		c.Analysed(fname(f))
@@ -554,4 +549,36 @@ func memQueueNoWalkAfterUnlink(c *core.Ctx, rule string) {
 		}
 	}
 
+}
+
+// pipelineInventory: who may send to / receive from the per-connection channels.
+func pipelineInventory(c *core.Ctx, rule string) {
+	rIn, sIn := chanUsers(c, "server", "server.client.in")
+	rOut, sOut := chanUsers(c, "server", "server.client.out")
+	checkUsers(c, rule, "receivers-of client.in", rIn, "connectWithTimeOut", "readHandle")
+	checkUsers(c, rule, "senders-to client.in", sIn, "readLoop")
+	checkUsers(c, rule, "receivers-of client.out", rOut, "writeLoop")
+	checkUsers(c, rule, "senders-to client.out", sOut, "write", "sendErrConnack", "connectWithTimeOut")
+	// write() itself must give up when the connection is closing: its send is a select with the close channel
+	w := c.P.Func("server", "(*client).write")
+	ok := false
+	ssax.Instrs(w, false, func(_ *ssa.Function, in ssa.Instruction) {
+		sel, isSel := in.(*ssa.Select)
+		if !isSel {
+			return
+		}
+		hasSend, hasClose := false, false
+		for _, st := range sel.States {
+			if st.Send != nil && ssax.AnyIn(ssax.Backward(st.Chan), ssax.LoadOfField("server.client.out")) {
+				hasSend = true
+			}
+			if st.Send == nil && ssax.AnyIn(ssax.Backward(st.Chan), ssax.LoadOfField("server.client.close")) {
+				hasClose = true
+			}
+		}
+		if hasSend && hasClose {
+			ok = true
+		}
+	})
+	c.Check(ok, rule, "client.write|gives-up-on-close", fpos(c, w), "write selects on client.close", "client.write no longer gives up when the connection is closing: a goroutine blocked on a full out channel never exits and the connection is never unregistered")
 }
